@@ -20,8 +20,13 @@ from vivarium.library.units import units
 UM, MM = units.um, units.mm
 
 
+class _BareMarker:
+    pass
+
+
 class Bare(Serializer):
     """custom serializer: the bare magnitude (in whatever units it is handed), tagged"""
+    python_type = _BareMarker          # only used by name (`_serializer: 'verif_bare'`), never found by type
 
     def serialize(self, data):
         return {'bare': float(data.magnitude) if hasattr(data, 'magnitude') else data}
@@ -284,6 +289,73 @@ def check(scn):
     return fails[:4]
 
 
+# ---- values of application types serialised by a custom Serializer registered for their BASE type ------------------
+class Molecule:
+    def __init__(self, count):
+        self.count = count
+
+
+class Glucose(Molecule):
+    pass
+
+
+class Atp(Molecule):
+    pass
+
+
+class Nadh(Molecule):
+    pass
+
+
+class MoleculeSerializer(Serializer):
+    python_type = Molecule
+
+    def serialize(self, data):
+        return '!Molecule[%s:%s]' % (type(data).__name__, data.count)
+
+
+class Metabolism(Process):
+    defaults = {'timestep': 1.0, 'kinds': []}
+
+    def ports_schema(self):
+        kinds = {'Glucose': Glucose, 'Atp': Atp, 'Nadh': Nadh}
+        return {'pool': {'v%d' % i: {'_default': {'main': kinds[k](10)}, '_updater': 'set', '_emit': True}
+                         for i, k in enumerate(self.parameters['kinds'])}}
+
+    def next_update(self, timestep, states):
+        kinds = {'Glucose': Glucose, 'Atp': Atp, 'Nadh': Nadh}
+        return {'pool': {'v%d' % i: {'main': kinds[k](states['pool']['v%d' % i]['main'].count + 1)}
+                         for i, k in enumerate(self.parameters['kinds'])}}
+
+
+def check_object_rows(kinds, ticks=3):
+    """rows produced through the RAM emitter (which applies the registered serializers): one row per time, every flagged
+    variable present, serialised by the custom serializer of its base type -- for several subclasses, in several engines"""
+    import warnings
+    ser = MoleculeSerializer()
+    if serializer_registry.access(ser.name) is None:
+        serializer_registry.register(ser.name, ser)
+    fails = []
+    with warnings.catch_warnings():
+        warnings.simplefilter('ignore')
+        try:
+            sim = Engine(processes={'m': Metabolism({'kinds': kinds})}, topology={'m': {'pool': ('pool',)}}, display_info=False)
+            sim.update(ticks)
+            data = sim.emitter.get_data()
+        except Exception as e:
+            return ['emitting values of %s through the base-type serializer raised %s: %s' % (kinds, type(e).__name__, str(e)[:160])]
+    if sorted(data) != [float(t) for t in range(ticks + 1)]:
+        fails.append('rows at times %s, expected one per time 0..%d' % (sorted(data), ticks))
+    for t in sorted(data):
+        want = {'v%d' % i: {'main': '!Molecule[%s:%d]' % (k, 10 + int(t))} for i, k in enumerate(kinds)}
+        if data[t].get('pool') != want:
+            fails.append('row at %s is %r, expected %r' % (t, data[t].get('pool'), want))
+    return fails[:3]
+
+
+OBJECT_CASES = [['Glucose'], ['Glucose', 'Atp'], ['Atp', 'Nadh', 'Glucose'], ['Nadh'], ['Atp', 'Glucose']]
+
+
 def main():
     ap = argparse.ArgumentParser()
     ap.add_argument('--tier', default='quick'); ap.add_argument('--seed', type=int, default=0)
@@ -291,7 +363,7 @@ def main():
     a = ap.parse_args()
     if a.replay:
         scn = json.load(open(a.replay))['scenario']
-        fails = check(scn)
+        fails = check_object_rows(scn['object_kinds']) if 'object_kinds' in scn else check(scn)
         L.emit_result({'status': 'reproduced' if fails else 'not-reproduced', 'failed': fails})
         return
     n = 300 if a.tier == 'quick' else 5000
@@ -311,6 +383,15 @@ def main():
             failures.append({'id': 'C12.bounded.rows#%d: %s' % (i, fails[0][:260]), 'replay': rp})
             if len(failures) >= 3:
                 break
+    for oi, kinds in enumerate(OBJECT_CASES):
+        if len(failures) >= 3:
+            break
+        evaluations += 1
+        fails = check_object_rows(kinds)
+        distinct.add('objects-%d' % oi)
+        if fails:
+            rp = L.write_replay(a.out, 'C12', 'objects%d' % oi, {'object_kinds': kinds}, fails, extra={'driver': 'bounded.c12'})
+            failures.append({'id': 'C12.bounded.objects#%d: %s' % (oi, fails[0][:260]), 'replay': rp})
     L.emit_result({'status': 'violated' if failures else 'ok', 'evaluations': evaluations,
                    'distinct_nontrivial': len(distinct), 'failures': failures, 'samples': samples,
                    'rule': 'seeded random (variables, kinds, emit flags, store_schema overrides, emit_step, run length); '
